@@ -228,6 +228,12 @@ def run(spec: Spec, tier: str) -> int:
             if st in (2, 3, 4, 5, 6):
                 dis.append(jid)
         stats["k2_status"] = st_count
+        # a generated program the compiler ACCEPTS but whose parse tree the AST reader cannot map is outside everything decided below:
+        # never skip it silently (C15 turns it into a failing input of its own; elsewhere the generators stay inside the reader's dialect)
+        unm_ok = [jid for jid, st in k2r.statuses.items() if st == "unmapped" and k2r.results.get(jid, {}).get("ok")]
+        if unm_ok and spec.prop != "C15":
+            broken.append(Broken("correspondence", "tools/vt/tree2ast.py cannot map the parse tree of a program the compiler accepts",
+                                 f"{len(unm_ok)} programs; first: {allp[int(unm_ok[0].split(':')[1])]} ({k2r.unmapped.get(unm_ok[0])})"))
         if dis:
             idx = int(dis[0].split(":")[1])
             broken.append(Broken("correspondence", "K2 model/Lower.v vs RZILTransformer",
